@@ -89,7 +89,13 @@ def rule_H4(ctx):
     parts = [x for x in own_walk(cr.node) if isinstance(x, ast.Call) and ast.unparse(x.func) == 'functools.partial']
     for p in parts:
         kw = {k.arg: ast.unparse(k.value) for k in p.keywords}
-        if not _re0.fullmatch(r'\w+\._bitlength', kw.get('length') or ''):
+        lv = kw.get('length') or ''
+        # a local that IS the bit length: bound once, and the very value stored as <obj>._bitlength
+        is_bitlength_local = lv.isidentifier() and sum(
+            1 for y in own_walk(cr.node) if isinstance(y, ast.Name) and y.id == lv and isinstance(y.ctx, ast.Store)) == 1 and any(
+            isinstance(y, ast.Assign) and isinstance(y.value, ast.Name) and y.value.id == lv and any(ast.unparse(t).endswith('._bitlength') for t in y.targets)
+            for y in own_walk(cr.node)) and lv not in cr.params()
+        if not _re0.fullmatch(r'\w+\._bitlength', lv) and not is_bitlength_local:
             r.fail(cr.key, p, 'the setter/reader of a sized dtype must be bound to the length in bits', loc=cr.loc(p))
         else:
             r.ok(p)
@@ -204,7 +210,15 @@ def rule_H4(ctx):
             raise AnalysisError(f'anchor vanished: Bits.{nm}')
         flags = _float_order_flags(m, f)
         if flags is None:
-            raise AnalysisError(f'Bits.{nm}: float encoder call not recognised (needs a human)')
+            # no flag-taking encoder call in sight (one routine per byte order, say): which struct formats the setter reaches
+            from .peval import struct_formats, Unsupported, is_const
+            try:
+                fmts = [v for L in (16, 32, 64) for v, _n, _k in struct_formats(m, f, {'length': L})[0]]
+            except (Unsupported, RecursionError, Exception):
+                fmts = []
+            if not fmts or not all(is_const(v) and isinstance(v, str) and v[:1] in '<>!=@' for v in fmts):
+                raise AnalysisError(f'Bits.{nm}: float encoder call not recognised (needs a human)')
+            flags = [want] if all(v[0] in ('>!' if want else '<') for v in fmts) else [not want]
         if flags != [want]:
             r.fail(f.key, f'{nm} endianness flag', f'{nm} must encode with big_endian={want} (float2bitstore(f, length, {want}), directly or through _setfloat)',
                    loc=f.loc())
@@ -449,6 +463,9 @@ def rule_LOOPX(ctx):
                     if isinstance(d, ast.Compare) and len(d.ops) == 1 and isinstance(d.ops[0], (ast.GtE, ast.Gt, ast.Eq)) and isinstance(d.left, ast.Name) \
                             and ast.unparse(d.comparators[0]) == 'count':
                         counters.add(d.left.id)
+                    if isinstance(d, ast.Compare) and len(d.ops) == 1 and isinstance(d.ops[0], (ast.LtE, ast.Lt, ast.Eq)) and isinstance(d.comparators[0], ast.Name) \
+                            and ast.unparse(d.left) == 'count':
+                        counters.add(d.comparators[0].id)          # written the other way round: count <= c
         if not counters:
             continue
 
@@ -460,6 +477,22 @@ def rule_LOOPX(ctx):
                     for c in lst:
                         if not isinstance(c, ast.FunctionDef):
                             yield from blocks(c)
+        # the counter is the index of `for c, x in enumerate(..)`: it counts rounds, so every round must yield (no filter in between)
+        enum_loops = [l for l in own_walk(f.node) if isinstance(l, ast.For) and isinstance(l.iter, ast.Call) and ast.unparse(l.iter.func) == 'enumerate'
+                      and isinstance(l.target, ast.Tuple) and l.target.elts and isinstance(l.target.elts[0], ast.Name) and l.target.elts[0].id in counters
+                      and not (len(l.iter.args) > 1 or l.iter.keywords)]
+        if enum_loops:
+            for l in enum_loops:
+                n_c += 1
+                direct = [st for st in l.body if st in yields]
+                filtered = [y for y in yields if y not in direct and any(y is z for b in l.body for z in ast.walk(b))]
+                skips = [z for b in l.body for z in ast.walk(b) if isinstance(z, ast.Continue)]
+                if direct and not filtered and not skips:
+                    r.ok(f'{f.key}:{norm(l.target)}', {'instance': f.key, 'verdict': 'enumerate index counts the rounds, and every round yields'})
+                else:
+                    r.fail(f.key, (filtered or skips or [l])[0], f"{f.name} counts the rounds of its loop (enumerate) but not every round yields: `count` limits "
+                           'something other than the number of results returned', loc=f.loc((filtered or skips or [l])[0]))
+            continue
         for lst in blocks(f.node):
             incs = [st for st in lst if isinstance(st, ast.AugAssign) and isinstance(st.op, ast.Add) and isinstance(st.target, ast.Name) and st.target.id in counters]
             ys = [st for st in lst if st in yields]
@@ -550,6 +583,15 @@ def rule_DELEG(ctx):
         return isinstance(v, ast.Name) or (isinstance(v, ast.Call) and isinstance(v.func, ast.Attribute) and ast.unparse(v.func.value) == 'self'
                                            and v.func.attr in ('_slice', '_absolute_slice', '__getitem__')) \
             or (isinstance(v, ast.Subscript) and ast.unparse(v.value) == 'self')
+    if not writes:
+        # the writing loop lives in a routine the file object is handed to
+        fparam = [p for p in tf.params() if p != 'self'][:1]
+        for c in own_walk(tf.node):
+            if isinstance(c, ast.Call) and isinstance(c.func, ast.Attribute) and fparam and any(isinstance(a, ast.Name) and a.id == fparam[0] for a in c.args):
+                gs = [g for g in m.funcs.values() if g.name == c.func.attr and g.cls is not None]
+                if len(gs) == 1:
+                    writes = [x for x in own_walk(gs[0].node) if isinstance(x, ast.Call) and isinstance(x.func, ast.Attribute) and x.func.attr == 'write']
+                    break
     if not writes or not all(exact(w) for w in writes):
         r.fail(tf.key, 'tofile writes tobytes()', 'tofile must write exactly the tobytes() of each chunk', loc=tf.loc())
     else:
@@ -595,12 +637,12 @@ def rule_PK(ctx):
             else:
                 r.ok(f'{name}->{need}', {'instance': name, 'uses': need})
     def direct_callees(f, c, depth=2):
-        # the routine and the private helpers of its own class/module it is cut into
+        # the routine and the private helpers (of any module of the package) it is cut into
         out = set()
         for cs in ctx.R.analyse(f, c).calls:
             for (g, c2) in cs.targets:
                 out.add(g.key)
-                if depth > 0 and g.name.startswith('_') and not g.name.startswith('__') and g.mod == f.mod and g.key != f.key:
+                if depth > 0 and g.name.startswith('_') and not g.name.startswith('__') and g.key != f.key:
                     out |= direct_callees(g, c2, depth - 1)
         return out
     for name, reach in (('tokenparser', direct_callees(tp, None)), ('unpack/readlist', direct_callees(rl, 'Bits'))):
@@ -833,6 +875,28 @@ def rule_REP(ctx):
     factor = [x.targets[0].id for x in own_walk(f.node) if isinstance(x, ast.Assign) and isinstance(x.targets[0], ast.Name) and 'factor' in ast.unparse(x.value)
               and 'group' in ast.unparse(x.value)]
     group = [x.targets[0].id for x in own_walk(f.node) if isinstance(x, ast.Assign) and isinstance(x.targets[0], ast.Name) and 'structparser' in ast.unparse(x.value)]
+    # the multiplier handed to the struct expansion itself: there it must repeat the finished code list, not the count of each code
+    sp = m.funcs.get('utils:structparser')
+    if len(set(factor)) == 1 and sp is not None:
+        handed = False
+        for c in own_walk(f.node):
+            if isinstance(c, ast.Call) and ast.unparse(c.func).split('.')[-1] == 'structparser':
+                ps = sp.params()
+                for i, a in enumerate(c.args):
+                    if isinstance(a, ast.Name) and a.id == factor[0] and i < len(ps):
+                        handed = ps[i]
+                for kw in c.keywords:
+                    if isinstance(kw.value, ast.Name) and kw.value.id == factor[0] and kw.arg:
+                        handed = kw.arg
+                if handed:
+                    per_code = [x for x in own_walk(sp.node) if isinstance(x, (ast.ListComp, ast.GeneratorExp, ast.For))
+                                and any(isinstance(y, ast.Name) and y.id == handed for y in ast.walk(x.elt if not isinstance(x, ast.For) else ast.Module(body=x.body, type_ignores=[])))]
+                    if per_code:
+                        r.fail(f.key, c, f"the multiplier is handed to structparser ({handed}), which multiplies the count of EACH code: '2*<hB' becomes h,h,B,B, but "
+                               "the multiplier repeats the token as written (h,B,h,B - what '<hB,<hB' and '2*(<hB)' give), so packed values meet the wrong codes",
+                               loc=f.loc(c))
+                        return r
+                    raise AnalysisError(f'preprocess_tokens: the multiplier is handed to structparser ({handed}); how it is used there is not recognised (needs a human)')
     if len(set(factor)) != 1 or len(set(group)) != 1:
         raise AnalysisError('preprocess_tokens: factor / token-group variables not recognised')
     fac, grp = factor[0], group[0]
